@@ -194,6 +194,9 @@ pub struct C14;
 const NOPS: u8 = 18;
 
 fn ring_bbox(r: &[C]) -> (i64, i64, i64, i64) {
+    if r.is_empty() {
+        return (0, 0, 0, 0);
+    }
     (r.iter().map(|c| c.0).min().unwrap(), r.iter().map(|c| c.1).min().unwrap(), r.iter().map(|c| c.0).max().unwrap(), r.iter().map(|c| c.1).max().unwrap())
 }
 
@@ -298,7 +301,11 @@ fn mutate(g: &G, op: u8, s: u64) -> G {
                 // too few coordinates
                 let (a, b) = (p.ext[0], p.ext[1]);
                 // (also with the closing coordinate or an inner one stored twice: still fewer than three distinct vertices)
-                match pick(7, 1) {
+                match pick(10, 1) {
+                    // the exterior collapsed to a point or gone altogether while the holes stay
+                    7 => p.ext = vec![a, a],
+                    8 => p.ext = vec![a],
+                    9 if !p.holes.is_empty() => p.ext = vec![],
                     0 => p.ext = vec![a, b, a],
                     1 => p.ext = vec![a, a, b, a],
                     2 => p.ext = vec![a, b, a, a],
@@ -325,6 +332,16 @@ fn mutate(g: &G, op: u8, s: u64) -> G {
                 p.holes.push(p.ext.clone());
             }
             _ => {}
+        }
+    }
+    // two defects at once (only the valid / invalid bit and the absence of a panic are compared then): a member whose exterior
+    // has collapsed to a point keeps a hole that is moved across a vertex of another member
+    if is_multi && op == 9 && polys.len() >= 2 && polys[pi].ext.len() <= 2 && !polys[pi].ext.is_empty() && !polys[pi].holes.is_empty() && pick(2, 3) == 0 {
+        let other = polys[(pi + 1) % polys.len()].ext[0];
+        let h0 = polys[pi].holes[0][0];
+        let d = (other.0 - h0.0 + pick(2, 4) as i64, other.1 - h0.1 - pick(2, 5) as i64);
+        for c in polys[pi].holes[0].iter_mut() {
+            *c = (c.0 + d.0, c.1 + d.1);
         }
     }
     if is_multi || op >= 12 {
